@@ -22,7 +22,7 @@ RULE = ("48 policy combinations x (n_jobs, backend) in {(1,-),(3,threading),(3,l
         "(predict and predict_expectations) x continuations with partial_fit (+ arm change / warm start / refit); non-trivial "
         "= >=2 queries before a continuation containing partial_fit on a neighbourhood or linear policy, or any case with "
         "threads; distinct = (combo, backend, query sizes, continuation skeleton)")
-BUDGET = {"quick": {"cases": 48 * 5, "shards": 8}, "thorough": {"cases": 48 * 150, "shards": 16, "wall_s": 2400}}
+BUDGET = {"quick": {"cases": 48 * 8, "shards": 16}, "thorough": {"cases": 48 * 150, "shards": 16, "wall_s": 3600}}
 MIN = {"quick": {"evaluations": 200, "nontrivial": 80}, "thorough": {"evaluations": 6000, "nontrivial": 2000}}
 ASSUMPTIONS = ["random streams are allowed to advance: all generator objects of the queried bandit are copied onto the twin"]
 
